@@ -110,6 +110,11 @@ other("C02", "point_interval (the column ranges of the two images that a dispari
       "disparity list, for both sad and ssd (disparity loop invariant over the enlarged volume, crop / permuted views, border, column "
       "selection): the cost of pixel (y, x) at disparity d is np.sum over the window "
       "centred on it of |L(r, c) - R(r, c + d)| (resp. squared), NaN on the border; reported type_measure is 'min'.  "
+      "masks_dilatation (the masks cv_masked lays over the volume) proved for every image size, mask content and odd window, per "
+      "structure (mask variable present or not in each image) and sub-pixel precision 1/2/4: a pixel of the left / right mask is NaN "
+      "iff it is invalid in ITS OWN image's convention or a no-data pixel of that image lies in the window centred on it, 0 otherwise; "
+      "the half-pixel right mask is NaN iff one of its two neighbours is (scipy binary_dilation by an odd square as an assumed contract, "
+      "cross-checked numerically).  "
       "shift_right_img / census_transform leave their input image untouched ("
       + FRAME_NOTE + "); census and zncc values, sub-pixel shifts, multiband selection, masks (cv_masked), reported cmax:", trusted=FRAME_TRUSTED + [
           "assumed contract: np.lib.stride_tricks.as_strided(a, shape, strides) with strides taken from a.strides addresses a[idx], "
@@ -117,6 +122,8 @@ other("C02", "point_interval (the column ranges of the two images that a dispari
           "assumed contract: np.sum over a box is a function of the box contents (two arrays that agree on the box give the same sum); "
           "NaN as soon as one element is NaN, and over NaN-or-finite elements NaN only then",
           "assumed contract on AbstractMatchingCost.check_band_input_mc: with no band selected and monoband datasets it returns without effect",
+          "assumed contract: scipy.ndimage.binary_dilation(a, structure=np.ones((w, w)), iterations=1) for odd w: out[y, x] iff some a[p, q] "
+          "holds with |p - y| <= w // 2 and |q - x| <= w // 2 inside the array (that the structuring element is an odd square is an obligation)",
           "np.amin / np.amax of an image are uninterpreted functions of its contents (finite when all samples are): cmax is reported, not proved"],
       assumptions=["for the end-to-end sad/ssd proof: pixel precision (subpix 1, integer disparities), monoband finite images of equal size, "
                    "every column computed (step 1), window_size == 2 * offset_row_col + 1 >= 3 not larger than the image (the single-pixel window "
